@@ -216,7 +216,7 @@ pub fn extra_families() -> Vec<Prog> {
 }
 
 #[derive(Clone, Copy, PartialEq, Eq, Debug)]
-pub enum Slice { Wf, Viol, All, WfOrViol, WfOrPanic, WfOrMulti, WfOrViolOrPanic, WfOrViolOrSelfConflict }
+pub enum Slice { Wf, Viol, All, WfOrViol, WfOrPanic, WfOrMulti, WfOrViolOrPanic, WfOrViolOrSelfConflict, ReadBeforeGenerate }
 
 fn in_slice(class: &Class, slice: Slice) -> bool {
   let f = &class.flags;
@@ -227,6 +227,10 @@ fn in_slice(class: &Class, slice: Slice) -> bool {
     // programs in which a task also reads a resource it writes (pie rejects the task itself; C05/C06 obligations
     // only concern DIFFERENT tasks, so their oracles stay sound there)
     Slice::WfOrViolOrSelfConflict => f.self_conflict && !(f.read_before_generate || f.task_panic),
+    // programs in which some task reads a resource and only afterwards requires its generator (pie cannot see that;
+    // what the reader saw is not defined by a from-scratch build, so only the C05/C06 obligations between DIFFERENT
+    // tasks are judged there)
+    Slice::ReadBeforeGenerate => f.read_before_generate && !(f.self_conflict || f.multi_dep || f.task_panic),
     Slice::WfOrViolOrPanic => !(f.read_before_generate || f.self_conflict || f.multi_dep),
     Slice::WfOrMulti => { let mut g = *f; g.multi_dep = false; !g.any() }
     Slice::Viol => !excluded && f.any_violation(),
@@ -306,7 +310,23 @@ pub struct Group { pub enums: Vec<EnumCfg>, pub depth: usize, pub shapes: bool, 
   /// staged exploration over the order family: depth of the graph-building first stage
   pub staged: Option<usize>,
   /// declared writes bypass `create_writer` (the task produces the content by other means, then calls `written_to`)
-  pub direct: bool }
+  pub direct: bool,
+  /// only programs in which two different tasks write one resource
+  pub two_writers: bool }
+
+/// Two different tasks write one resource.
+pub fn two_writers(p: &Prog) -> bool {
+  for (a, ba) in p.bodies.iter().enumerate() {
+    for s in ba {
+      if let Op::Write(r, _, _) | Op::WriteDecl(r, _, _) = s.op {
+        for (b, bb) in p.bodies.iter().enumerate() {
+          if a != b && bb.iter().any(|s2| matches!(s2.op, Op::Write(rr, _, _) | Op::WriteDecl(rr, _, _) if rr == r)) { return true; }
+        }
+      }
+    }
+  }
+  false
+}
 
 /// Some task writes a resource that a different task reads (generator/consumer structure).
 pub fn gen_consumer(p: &Prog) -> bool {
@@ -366,20 +386,22 @@ pub fn run(args: &Args) -> i32 {
   };
   // `pe`: require-only programs with pie's EqualsChecker and the harness equality checker, no guards, no writes
   let pe = |n: usize, r: u8, k: usize| { let mut e = EnumCfg::structural(n, r, k); e.ocs = vec![OC::PieEquals, OC::Equals]; e.srcs = vec![]; e.guards = false; e.self_req = false; e };
+  // `rs`: require structures with three tasks (triangles: a task required directly and through another task)
+  let rs = |n: usize, r: u8, k: usize| { let mut e = EnumCfg::structural(n, r, k); e.ocs = vec![OC::Equals, OC::PieAlways]; e.srcs = vec![]; e.guards = false; e.self_req = false; e };
   // `cw`: generator/consumer programs with coarse (existence-only) write checkers as well.
   let cw = |n: usize, r: u8, k: usize| { let mut e = EnumCfg::structural(n, r, k); e.ocs = vec![OC::Equals, OC::PieAlways]; e.write_rcs = vec![RC::Exact, RC::Exists]; e };
   let mut groups: Vec<Group> = if quick {
     vec![
-      Group { enums: vec![s(2, 2, 3)], depth: 5, shapes: true, gen_consumer_only: false, crashes: 0, inject: false, max_roots: None, faulty: false, slice: None, families: false, staged: None, direct: false },
-      Group { enums: vec![s(3, 2, 2), rich(2, 2, 2)], depth: 4, shapes: false, gen_consumer_only: false, crashes: 0, inject: false, max_roots: None, faulty: false, slice: None, families: false, staged: None, direct: false },
+      Group { enums: vec![s(2, 2, 3)], depth: 5, shapes: true, gen_consumer_only: false, crashes: 0, inject: false, max_roots: None, faulty: false, slice: None, families: false, staged: None, direct: false, two_writers: false },
+      Group { enums: vec![s(3, 2, 2), rich(2, 2, 2)], depth: 4, shapes: false, gen_consumer_only: false, crashes: 0, inject: false, max_roots: None, faulty: false, slice: None, families: false, staged: None, direct: false, two_writers: false },
       // generator/consumer programs one statement larger (conditional generators with an always-consistent require)
-      Group { enums: vec![s(2, 2, 4)], depth: 4, shapes: false, gen_consumer_only: true, crashes: 0, inject: false, max_roots: None, faulty: false, slice: None, families: false, staged: None, direct: false },
+      Group { enums: vec![s(2, 2, 4)], depth: 4, shapes: false, gen_consumer_only: true, crashes: 0, inject: false, max_roots: None, faulty: false, slice: None, families: false, staged: None, direct: false, two_writers: false },
     ]
   } else {
     vec![
-      Group { enums: vec![s(2, 2, 4), rich(2, 2, 3)], depth: 6, shapes: true, gen_consumer_only: false, crashes: 0, inject: false, max_roots: None, faulty: false, slice: None, families: false, staged: None, direct: false },
-      Group { enums: vec![s(3, 2, 3), s(3, 3, 3)], depth: 5, shapes: false, gen_consumer_only: false, crashes: 0, inject: false, max_roots: None, faulty: false, slice: None, families: false, staged: None, direct: false },
-      Group { enums: vec![s(4, 2, 3)], depth: 4, shapes: false, gen_consumer_only: false, crashes: 0, inject: false, max_roots: None, faulty: false, slice: None, families: false, staged: None, direct: false },
+      Group { enums: vec![s(2, 2, 4), rich(2, 2, 3)], depth: 6, shapes: true, gen_consumer_only: false, crashes: 0, inject: false, max_roots: None, faulty: false, slice: None, families: false, staged: None, direct: false, two_writers: false },
+      Group { enums: vec![s(3, 2, 3), s(3, 3, 3)], depth: 5, shapes: false, gen_consumer_only: false, crashes: 0, inject: false, max_roots: None, faulty: false, slice: None, families: false, staged: None, direct: false, two_writers: false },
+      Group { enums: vec![s(4, 2, 3)], depth: 4, shapes: false, gen_consumer_only: false, crashes: 0, inject: false, max_roots: None, faulty: false, slice: None, families: false, staged: None, direct: false, two_writers: false },
     ]
   };
   let filter: Box<dyn Fn(&Prog) -> bool> = Box::new(|p| reads_something(p));
@@ -389,24 +411,24 @@ pub fn run(args: &Args) -> i32 {
       cfg.probe = prop == Prop::C03; cfg.bu_over_report = true; cfg.bu_then = true; cfg.bu_twice = true; cfg.bu_pre = true; cfg.max_roots = if quick { 1 } else { 2 };
       // named shapes and the transitive template family with two roots per session (creation orders need them)
       groups[0].shapes = false;
-      groups.push(Group { enums: vec![], depth: 4, shapes: true, gen_consumer_only: false, crashes: 0, inject: false, max_roots: Some(2), faulty: false, slice: None, families: false, staged: None, direct: false });
-      if quick { groups[0].depth = 4; groups[1] = Group { enums: vec![s(3, 2, 2)], depth: 4, shapes: false, gen_consumer_only: false, crashes: 0, inject: false, max_roots: None, faulty: false, slice: None, families: false, staged: None, direct: false }; }
+      groups.push(Group { enums: vec![], depth: 4, shapes: true, gen_consumer_only: false, crashes: 0, inject: false, max_roots: Some(2), faulty: false, slice: None, families: false, staged: None, direct: false, two_writers: false });
+      if quick { groups[0].depth = 4; groups[1] = Group { enums: vec![s(3, 2, 2)], depth: 4, shapes: false, gen_consumer_only: false, crashes: 0, inject: false, max_roots: None, faulty: false, slice: None, families: false, staged: None, direct: false, two_writers: false }; }
       // coarse read checkers next to exact ones on one task (a reported change that one checker ignores and another sees)
-      groups.push(Group { enums: vec![rich(2, 2, 2)], depth: 5, shapes: false, gen_consumer_only: false, crashes: 0, inject: false, max_roots: None, faulty: false, slice: None, families: false, staged: None, direct: false });
-      if !quick { groups.push(Group { enums: vec![s(2, 2, 5)], depth: 3, shapes: false, gen_consumer_only: true, crashes: 0, inject: false, max_roots: None, faulty: false, slice: None, families: false, staged: None, direct: false }); }
+      groups.push(Group { enums: vec![rich(2, 2, 2)], depth: 5, shapes: false, gen_consumer_only: false, crashes: 0, inject: false, max_roots: None, faulty: false, slice: None, families: false, staged: None, direct: false, two_writers: false });
+      if !quick { groups.push(Group { enums: vec![s(2, 2, 5)], depth: 3, shapes: false, gen_consumer_only: true, crashes: 0, inject: false, max_roots: None, faulty: false, slice: None, families: false, staged: None, direct: false, two_writers: false }); }
       // (the require-structure family first: it is a subset of the next group and must keep its own, deeper, bound)
-      groups.push(Group { enums: vec![if quick { nw(3, 1, 4) } else { nw(3, 1, 5) }], depth: 4, shapes: false, gen_consumer_only: false, crashes: 0, inject: false, max_roots: Some(2), faulty: false, slice: None, families: false, staged: None, direct: false });
+      groups.push(Group { enums: vec![if quick { nw(3, 1, 4) } else { nw(3, 1, 5) }], depth: 4, shapes: false, gen_consumer_only: false, crashes: 0, inject: false, max_roots: Some(2), faulty: false, slice: None, families: false, staged: None, direct: false, two_writers: false });
       // three tasks, one resource: a task with two dependents of different kinds (requirer + dynamic requirer / reader)
-      groups.push(Group { enums: vec![{ let mut e = s(3, 1, 4); e.guard_vals = vec![1]; e.srcs = vec![Src::Acc]; e }], depth: if quick { 3 } else { 4 }, shapes: false, gen_consumer_only: false, crashes: 0, inject: false, max_roots: Some(2), faulty: false, slice: None, families: false, staged: None, direct: false });
+      groups.push(Group { enums: vec![{ let mut e = s(3, 1, 4); e.guard_vals = vec![1]; e.srcs = vec![Src::Acc]; e }], depth: if quick { 3 } else { 4 }, shapes: false, gen_consumer_only: false, crashes: 0, inject: false, max_roots: Some(2), faulty: false, slice: None, families: false, staged: None, direct: false, two_writers: false });
       // coarse write checkers: only the checker-relative oracles apply there (no from-scratch content comparison)
-      groups.push(Group { enums: vec![cw(2, 2, 4)], depth: 4, shapes: false, gen_consumer_only: true, crashes: 0, inject: false, max_roots: None, faulty: false, slice: None, families: false, staged: None, direct: false });
-      if !quick { groups.push(Group { enums: vec![nw(4, 1, 5)], depth: 4, shapes: false, gen_consumer_only: false, crashes: 0, inject: false, max_roots: None, faulty: false, slice: None, families: false, staged: None, direct: false }); }
-      groups.push(Group { enums: vec![if quick { sf(4, 2) } else { sf(4, 3) }], depth: 4, shapes: false, gen_consumer_only: false, crashes: 0, inject: false, max_roots: Some(2), faulty: false, slice: None, families: false, staged: None, direct: false });
+      groups.push(Group { enums: vec![cw(2, 2, 4)], depth: 4, shapes: false, gen_consumer_only: true, crashes: 0, inject: false, max_roots: None, faulty: false, slice: None, families: false, staged: None, direct: false, two_writers: false });
+      if !quick { groups.push(Group { enums: vec![nw(4, 1, 5)], depth: 4, shapes: false, gen_consumer_only: false, crashes: 0, inject: false, max_roots: None, faulty: false, slice: None, families: false, staged: None, direct: false, two_writers: false }); }
+      groups.push(Group { enums: vec![if quick { sf(4, 2) } else { sf(4, 3) }], depth: 4, shapes: false, gen_consumer_only: false, crashes: 0, inject: false, max_roots: Some(2), faulty: false, slice: None, families: false, staged: None, direct: false, two_writers: false });
       // several requirers of one task with pie's own EqualsChecker next to the harness one, stamps taken in different
       // sessions (each requirer holds a stamp of a different output of the shared task)
-      groups.push(Group { enums: vec![pe(3, 1, 3)], depth: 5, shapes: false, gen_consumer_only: false, crashes: 0, inject: false, max_roots: Some(1), faulty: false, slice: None, families: false, staged: None, direct: false });
+      groups.push(Group { enums: vec![pe(3, 1, 3)], depth: 5, shapes: false, gen_consumer_only: false, crashes: 0, inject: false, max_roots: Some(1), faulty: false, slice: None, families: false, staged: None, direct: false, two_writers: false });
       // order family: creation orders / topological ranks set up by a first stage of top-down builds
-      groups.push(Group { enums: vec![], depth: if quick { 2 } else { 3 }, shapes: false, gen_consumer_only: false, crashes: 0, inject: false, max_roots: Some(1), faulty: false, slice: None, families: false, staged: Some(if quick { 4 } else { 5 }), direct: false });
+      groups.push(Group { enums: vec![], depth: if quick { 2 } else { 3 }, shapes: false, gen_consumer_only: false, crashes: 0, inject: false, max_roots: Some(1), faulty: false, slice: None, families: false, staged: Some(if quick { 4 } else { 5 }), direct: false, two_writers: false });
       if !quick { groups[0].depth = 5; groups[1].depth = 4; groups[2].depth = 3; }
     }
     Prop::C05 | Prop::C06 | Prop::C07 | Prop::C20 => {
@@ -414,40 +436,46 @@ pub fn run(args: &Args) -> i32 {
       if prop == Prop::C20 { cfg.keep_session = true; }
       if quick { groups[0].depth = 4; }
       // injected violations: one new one-statement task added to every well-formed generator/consumer program
-      groups.push(Group { enums: vec![s(2, 2, if quick { 3 } else { 4 })], depth: 4, shapes: true, gen_consumer_only: true, crashes: 0, inject: true, max_roots: None, faulty: false, slice: None, families: false, staged: None, direct: false });
+      groups.push(Group { enums: vec![s(2, 2, if quick { 3 } else { 4 })], depth: 4, shapes: true, gen_consumer_only: true, crashes: 0, inject: true, max_roots: None, faulty: false, slice: None, families: false, staged: None, direct: false, two_writers: false });
       if prop == Prop::C05 || prop == Prop::C06 {
         // declared writes whose stamp fails at declaration time (fault events SetFail): the violation must still abort
         cfg.set_fail = true; cfg.stamp_fail = true;
-        groups.push(Group { enums: vec![{ let mut e = s(2, 2, 3); e.ocs = vec![OC::PieAlways]; e.write_decl = true; e.write_rcs = vec![RC::Faulty]; e.srcs = vec![Src::One]; e }], depth: if quick { 3 } else { 4 }, shapes: false, gen_consumer_only: false, crashes: 0, inject: false, max_roots: None, faulty: false, slice: None, families: false, staged: None, direct: false });
+        groups.push(Group { enums: vec![{ let mut e = s(2, 2, 3); e.ocs = vec![OC::PieAlways]; e.write_decl = true; e.write_rcs = vec![RC::Faulty]; e.srcs = vec![Src::One]; e }], depth: if quick { 3 } else { 4 }, shapes: false, gen_consumer_only: false, crashes: 0, inject: false, max_roots: None, faulty: false, slice: None, families: false, staged: None, direct: false, two_writers: false });
         // declared writes whose content was produced without `create_writer` (written by other means, then `written_to`)
-        groups.push(Group { enums: vec![{ let mut e = s(2, 2, 3); e.ocs = vec![OC::PieAlways]; e.write_decl = true; e.srcs = vec![Src::One]; e }], depth: if quick { 3 } else { 4 }, shapes: false, gen_consumer_only: false, crashes: 0, inject: false, max_roots: None, faulty: false, slice: None, families: false, staged: None, direct: true });
+        groups.push(Group { enums: vec![{ let mut e = s(2, 2, 3); e.ocs = vec![OC::PieAlways]; e.write_decl = true; e.srcs = vec![Src::One]; e }], depth: if quick { 3 } else { 4 }, shapes: false, gen_consumer_only: false, crashes: 0, inject: false, max_roots: None, faulty: false, slice: None, families: false, staged: None, direct: true, two_writers: false });
+        // two different writers of one resource, one statement larger (a re-executing writer that first requires the other writer)
+        groups.push(Group { enums: vec![{ let mut e = s(2, 2, 4); e.ocs = vec![OC::PieAlways]; e.srcs = vec![Src::One]; e.guard_vals = vec![1]; e }], depth: 3, shapes: false, gen_consumer_only: false, crashes: 0, inject: false, max_roots: Some(1), faulty: false, slice: None, families: false, staged: None, direct: false, two_writers: true });
+        // a reader that reads before it requires the generator, next to a third task that reads without requiring it
+        groups.push(Group { enums: vec![{ let mut e = s(3, 1, 4); e.ocs = vec![OC::PieAlways]; e.srcs = vec![Src::One]; e.guards = false; e.self_req = false; e }], depth: 2, shapes: false, gen_consumer_only: false, crashes: 0, inject: false, max_roots: Some(2), faulty: false, slice: Some(Slice::ReadBeforeGenerate), families: false, staged: None, direct: false, two_writers: false });
         // a task that reads a resource and also writes it, next to another reader / writer of that resource
-        groups.push(Group { enums: vec![s(2, 2, 3)], depth: if quick { 3 } else { 5 }, shapes: false, gen_consumer_only: false, crashes: 0, inject: false, max_roots: None, faulty: false, slice: Some(Slice::WfOrViolOrSelfConflict), families: false, staged: None, direct: false });
-        groups.push(Group { enums: vec![{ let mut e = s(2, 2, 4); e.ocs = vec![OC::PieAlways]; e.guards = false; e }], depth: if quick { 3 } else { 4 }, shapes: false, gen_consumer_only: true, crashes: 0, inject: false, max_roots: None, faulty: false, slice: Some(Slice::WfOrViolOrSelfConflict), families: false, staged: None, direct: false });
+        groups.push(Group { enums: vec![s(2, 2, 3)], depth: if quick { 3 } else { 5 }, shapes: false, gen_consumer_only: false, crashes: 0, inject: false, max_roots: None, faulty: false, slice: Some(Slice::WfOrViolOrSelfConflict), families: false, staged: None, direct: false, two_writers: false });
+        groups.push(Group { enums: vec![{ let mut e = s(2, 2, 4); e.ocs = vec![OC::PieAlways]; e.guards = false; e }], depth: if quick { 3 } else { 4 }, shapes: false, gen_consumer_only: true, crashes: 0, inject: false, max_roots: None, faulty: false, slice: Some(Slice::WfOrViolOrSelfConflict), families: false, staged: None, direct: false, two_writers: false });
       }
       // require-structure family (value-dependent cycles of length up to 3, cycles appearing in later sessions)
       if prop == Prop::C07 || prop == Prop::C20 {
-        groups.push(Group { enums: vec![if quick { nw(3, 1, 4) } else { nw(3, 1, 5) }], depth: 4, shapes: false, gen_consumer_only: false, crashes: 0, inject: false, max_roots: None, faulty: false, slice: None, families: false, staged: None, direct: false });
+        groups.push(Group { enums: vec![if quick { nw(3, 1, 4) } else { nw(3, 1, 5) }], depth: 4, shapes: false, gen_consumer_only: false, crashes: 0, inject: false, max_roots: None, faulty: false, slice: None, families: false, staged: None, direct: false, two_writers: false });
       }
     }
     Prop::C08 => {
       cfg.bu_pre = true; cfg.bu_twice = true; cfg.bu_split = true; cfg.bu_then = true;
+      groups.push(Group { enums: vec![rs(3, 1, 4)], depth: 4, shapes: false, gen_consumer_only: false, crashes: 0, inject: false, max_roots: Some(1), faulty: false, slice: None, families: false, staged: None, direct: false, two_writers: false });
       // plus programs that declare several dependencies with different checkers on one target (recorded finding F2)
       slice = Slice::WfOrMulti;
       let mut e = EnumCfg::structural(if quick { 1 } else { 2 }, 1, if quick { 2 } else { 3 });
       e.read_rcs = vec![RC::Exact, RC::Exists];
       e.ocs = vec![OC::Equals, OC::IsZero];
-      groups.push(Group { enums: vec![e], depth: if quick { 5 } else { 6 }, shapes: false, gen_consumer_only: false, crashes: 0, inject: false, max_roots: None, faulty: false, slice: None, families: false, staged: None, direct: false });
+      groups.push(Group { enums: vec![e], depth: if quick { 5 } else { 6 }, shapes: false, gen_consumer_only: false, crashes: 0, inject: false, max_roots: None, faulty: false, slice: None, families: false, staged: None, direct: false, two_writers: false });
     }
     Prop::C09 => {
       cfg.bu_pre = true; cfg.bu_twice = true; cfg.bu_split = true; cfg.bu_then = true;
-      groups.push(Group { enums: vec![pe(3, 1, 3)], depth: 5, shapes: false, gen_consumer_only: false, crashes: 0, inject: false, max_roots: Some(1), faulty: false, slice: None, families: false, staged: None, direct: false });
+      groups.push(Group { enums: vec![pe(3, 1, 3)], depth: 5, shapes: false, gen_consumer_only: false, crashes: 0, inject: false, max_roots: Some(1), faulty: false, slice: None, families: false, staged: None, direct: false, two_writers: false });
+      groups.push(Group { enums: vec![rs(3, 1, 4)], depth: 4, shapes: false, gen_consumer_only: false, crashes: 0, inject: false, max_roots: Some(1), faulty: false, slice: None, families: false, staged: None, direct: false, two_writers: false });
       let mut e = EnumCfg::structural(2, 2, if quick { 2 } else { 3 });
       e.ocs = vec![OC::Equals, OC::IsZero, OC::Always, OC::PieEquals, OC::Near];
       e.read_rcs = vec![RC::Exact, RC::Exists, RC::Always];
       e.write_rcs = vec![RC::Exact, RC::Exists, RC::Always];
       e.write_decl = true;
-      groups.push(Group { enums: vec![e], depth: if quick { 5 } else { 6 }, shapes: false, gen_consumer_only: false, crashes: 0, inject: false, max_roots: None, faulty: false, slice: None, families: false, staged: None, direct: false });
+      groups.push(Group { enums: vec![e], depth: if quick { 5 } else { 6 }, shapes: false, gen_consumer_only: false, crashes: 0, inject: false, max_roots: None, faulty: false, slice: None, families: false, staged: None, direct: false, two_writers: false });
     }
     Prop::C18 => { cfg.set_fail = true; map_faulty = true; }
     Prop::C19 => {
@@ -456,7 +484,7 @@ pub fn run(args: &Args) -> i32 {
       let ncr = if quick { 1 } else { 2 };
       let mut e = EnumCfg::structural(2, 1, if quick { 3 } else { 4 });
       e.panic_op = true;
-      let g = |enums: Vec<EnumCfg>, depth: usize, shapes: bool, crashes: usize| Group { enums, depth, shapes, gen_consumer_only: false, crashes, inject: false, max_roots: None, faulty: false, slice: None, families: false, staged: None, direct: false };
+      let g = |enums: Vec<EnumCfg>, depth: usize, shapes: bool, crashes: usize| Group { enums, depth, shapes, gen_consumer_only: false, crashes, inject: false, max_roots: None, faulty: false, slice: None, families: false, staged: None, direct: false, two_writers: false };
       groups = if quick {
         vec![
           // every crash point of every build transition (+ program panics + diagnosed aborts), follow-ups to depth 4
@@ -470,34 +498,34 @@ pub fn run(args: &Args) -> i32 {
     }
     Prop::C16 => {
       cfg.collect_digests = true; slice = Slice::WfOrViol; cfg.bu_then = true;
-      if quick { groups.truncate(2); groups[0].depth = 4; groups[1].depth = 3; } else { groups.truncate(2); groups[0] = Group { enums: vec![s(2, 2, 4)], depth: 4, shapes: true, gen_consumer_only: false, crashes: 0, inject: false, max_roots: None, faulty: false, slice: None, families: false, staged: None, direct: false }; groups[1] = Group { enums: vec![s(3, 2, 3)], depth: 4, shapes: false, gen_consumer_only: false, crashes: 0, inject: false, max_roots: None, faulty: false, slice: None, families: false, staged: None, direct: false }; }
+      if quick { groups.truncate(2); groups[0].depth = 4; groups[1].depth = 3; } else { groups.truncate(2); groups[0] = Group { enums: vec![s(2, 2, 4)], depth: 4, shapes: true, gen_consumer_only: false, crashes: 0, inject: false, max_roots: None, faulty: false, slice: None, families: false, staged: None, direct: false, two_writers: false }; groups[1] = Group { enums: vec![s(3, 2, 3)], depth: 4, shapes: false, gen_consumer_only: false, crashes: 0, inject: false, max_roots: None, faulty: false, slice: None, families: false, staged: None, direct: false, two_writers: false }; }
       // several failing checkers in one session (the reported errors and their order are part of the trace)
       cfg.set_fail = true;
-      groups.push(Group { enums: vec![s(2, 2, if quick { 2 } else { 3 })], depth: if quick { 4 } else { 5 }, shapes: false, gen_consumer_only: false, crashes: 0, inject: false, max_roots: None, faulty: true, slice: Some(Slice::Wf), families: false, staged: None, direct: false });
+      groups.push(Group { enums: vec![s(2, 2, if quick { 2 } else { 3 })], depth: if quick { 4 } else { 5 }, shapes: false, gen_consumer_only: false, crashes: 0, inject: false, max_roots: None, faulty: true, slice: Some(Slice::Wf), families: false, staged: None, direct: false, two_writers: false });
       // queue order with several scheduled tasks (the order must come from topological ranks, not from set iteration)
-      groups.push(Group { enums: vec![if quick { sf(4, 2) } else { sf(4, 3) }], depth: if quick { 3 } else { 4 }, shapes: false, gen_consumer_only: false, crashes: 0, inject: false, max_roots: Some(2), faulty: false, slice: None, families: false, staged: None, direct: false });
+      groups.push(Group { enums: vec![if quick { sf(4, 2) } else { sf(4, 3) }], depth: if quick { 3 } else { 4 }, shapes: false, gen_consumer_only: false, crashes: 0, inject: false, max_roots: Some(2), faulty: false, slice: None, families: false, staged: None, direct: false, two_writers: false });
     }
     Prop::C17 => { slice = Slice::WfOrViol; cfg.bu_then = true; crate::runner::set_helper_mode_global(true);
       cfg.set_fail = true;
       if quick { groups.truncate(2); groups[0].depth = 4; groups[1].depth = 3; } else { groups[0].depth = 5; groups[1].depth = 4; }
       // failing checkers: start/end discipline around dependency checks that return an error
-      groups.push(Group { enums: vec![s(2, 2, if quick { 2 } else { 3 })], depth: 4, shapes: true, gen_consumer_only: false, crashes: 0, inject: false, max_roots: None, faulty: true, slice: None, families: false, staged: None, direct: false });
+      groups.push(Group { enums: vec![s(2, 2, if quick { 2 } else { 3 })], depth: 4, shapes: true, gen_consumer_only: false, crashes: 0, inject: false, max_roots: None, faulty: true, slice: None, families: false, staged: None, direct: false, two_writers: false });
     }
     _ => {}
   }
   if (!quick || prop == Prop::C07 || std::env::var("VERIF_FAMILIES").is_ok()) && !matches!(prop, Prop::C03 | Prop::C04 | Prop::C18 | Prop::C19) {
     // the order family (staged exploration) for the other history properties as well (C03/C04 have it in both tiers)
-    groups.push(Group { enums: vec![], depth: 2, shapes: false, gen_consumer_only: false, crashes: 0, inject: false, max_roots: Some(1), faulty: false, slice: None, families: false, staged: Some(4), direct: false });
+    groups.push(Group { enums: vec![], depth: 2, shapes: false, gen_consumer_only: false, crashes: 0, inject: false, max_roots: Some(1), faulty: false, slice: None, families: false, staged: Some(4), direct: false, two_writers: false });
   }
   if !quick || std::env::var("VERIF_FAMILIES").is_ok() {
-    groups.push(Group { enums: vec![], depth: 4, shapes: false, gen_consumer_only: false, crashes: 0, inject: false, max_roots: Some(2), faulty: false, slice: None, families: true, staged: None, direct: false });
+    groups.push(Group { enums: vec![], depth: 4, shapes: false, gen_consumer_only: false, crashes: 0, inject: false, max_roots: Some(2), faulty: false, slice: None, families: true, staged: None, direct: false, two_writers: false });
   }
   if crash_group {
     // Histories with one aborted build (crash decoration at every crash point) over the smallest programs: what was
     // built before on the instance includes builds that did not finish.
-    groups.push(Group { enums: vec![s(2, 2, if quick { 2 } else { 3 })], depth: if quick { 4 } else { 5 }, shapes: true, gen_consumer_only: false, crashes: 1, inject: false, max_roots: None, faulty: false, slice: None, families: false, staged: None, direct: false });
+    groups.push(Group { enums: vec![s(2, 2, if quick { 2 } else { 3 })], depth: if quick { 4 } else { 5 }, shapes: true, gen_consumer_only: false, crashes: 1, inject: false, max_roots: None, faulty: false, slice: None, families: false, staged: None, direct: false, two_writers: false });
     // one resource, one statement more, one step deeper: abort, change, rebuild, change back, rebuild
-    groups.push(Group { enums: vec![s(2, 1, if quick { 3 } else { 4 })], depth: if quick { 5 } else { 6 }, shapes: false, gen_consumer_only: false, crashes: 1, inject: false, max_roots: Some(1), faulty: false, slice: None, families: false, staged: None, direct: false });
+    groups.push(Group { enums: vec![s(2, 1, if quick { 3 } else { 4 })], depth: if quick { 5 } else { 6 }, shapes: false, gen_consumer_only: false, crashes: 1, inject: false, max_roots: Some(1), faulty: false, slice: None, families: false, staged: None, direct: false, two_writers: false });
   }
   // Experiment overrides (not used by the registered commands).
   if let Ok(e) = std::env::var("VERIF_GROUPS") {
@@ -505,7 +533,7 @@ pub fn run(args: &Args) -> i32 {
     let base = groups[0].enums[0].clone();
     groups = e.split(';').filter_map(|g| {
       let (d, en) = g.split_once(':')?;
-      Some(Group { enums: en.split('+').filter_map(|t| parse_enum(&base, t)).collect(), depth: d.parse().ok()?, shapes: true, gen_consumer_only: false, crashes: 0, inject: false, max_roots: None, faulty: false, slice: None, families: false, staged: None, direct: false })
+      Some(Group { enums: en.split('+').filter_map(|t| parse_enum(&base, t)).collect(), depth: d.parse().ok()?, shapes: true, gen_consumer_only: false, crashes: 0, inject: false, max_roots: None, faulty: false, slice: None, families: false, staged: None, direct: false, two_writers: false })
     }).collect();
   }
   if let Ok(w) = std::env::var("VERIF_WALL") { if let Ok(w) = w.parse() { cfg.wall_cap = w; } }
@@ -517,7 +545,7 @@ pub fn run(args: &Args) -> i32 {
   let mut group_desc: Vec<Value> = Vec::new();
   let started = std::time::Instant::now();
   for g in &groups {
-    let gfilter = |p: &Prog| filter(p) && (!g.gen_consumer_only || gen_consumer(p));
+    let gfilter = |p: &Prog| (filter(p) || g.two_writers) && (!g.gen_consumer_only || gen_consumer(p)) && (!g.two_writers || two_writers(p));
     let gslice = g.slice.unwrap_or(slice);
     let mut programs = if g.staged.is_some() {
       // not canonicalised: the staged exploration treats the LAST resource as the mode resource
